@@ -125,9 +125,13 @@ JudgeCli(e) ==
        /\ e.exit = 0 =>
             /\ Report("C05:answer_shape", ~e.malformed /\ ShapeOK(inv, e.nlines, e.status, e.wline, promised))
             /\ (~e.malformed /\ inv.kind = "SE") =>
-                 Report("C05:answer_content", IF e.wline THEN InFam(W, e.sem) /\ Len(e.wargs) = Cardinality(W) ELSE FamEmpty(e.sem))
+                 /\ Report("C05:answer_content", IF e.wline THEN InFam(W, e.sem) /\ Len(e.wargs) = Cardinality(W) ELSE FamEmpty(e.sem))
+                 \* C01 at its command-line observation point
+                 /\ Report("C01:printed_extension", IF e.wline THEN InFam(W, e.sem) /\ Len(e.wargs) = Cardinality(W) ELSE FamEmpty(e.sem))
             /\ (~e.malformed /\ inv.kind # "SE") =>
                  /\ Report("C05:answer_content", (e.status = "YES") = ref)
+                 \* C02 / C03 at their command-line observation point (first stdout line)
+                 /\ Report((IF cred THEN "C02" ELSE "C03") \o ":printed_status", (e.status = "YES") = ref)
                  /\ e.wline => Report("C05:answer_content", /\ InFam(W, cs) /\ Len(e.wargs) = Cardinality(W)
                                                             /\ (IF cred THEN W \cap A # {} ELSE W \cap A = {}))
                  \* C04 at its second observation point: the `w` line printed by the binaries
